@@ -18,7 +18,7 @@ var methodsC11 = []string{"GET", "POST", "PURGE", "OPTIONS", "CONNECT"}
 func init() {
 	register(&Prop{
 		ID: "C11", Level: "exploration",
-		Rule: "one case = a router shaped by a seeded mutation history over routes of GET/POST/PURGE/OPTIONS with per-route trailing-slash options, under one of the four combinations of the method-not-allowed and auto-OPTIONS options (custom recording no-route/no-method/options handlers; the built-in redirect handler is observed through a middleware scoped to it); probes use every method incl. OPTIONS, methods without routes, the target '*', and (one in four) a request whose escaped path differs from the decoded one (%2F, %20 inside a segment: routing and the Allow scan work on the escaped form). Oracle for requests no route serves: which special handler runs (OPTIONS with auto replies: options handler iff some method serves the target, else no-route; otherwise no-method iff another method serves it and the option is on; otherwise no-route), the Allow header compared as a set with exactly the methods whose reference match serves host+path directly or by ignoring a trailing slash (+OPTIONS as stated; for '*' every method that has routes), and the context seen by the handler (no route, empty pattern, no parameters, the handler's scope). Where a per-method routing answer falls in a listed C08 known finding, the composition rules are checked against fox's own per-method answer and the finding is counted. Non-trivial: at least 2 probes were answered by a special handler with a non-empty Allow header; distinct = hash of (options, final set, probes).",
+		Rule: "one case = a router shaped by a seeded mutation history over routes of GET/POST/PURGE/OPTIONS with per-route trailing-slash options, under one of the four combinations of the method-not-allowed and auto-OPTIONS options (custom recording no-route/no-method/options handlers; the built-in redirect handler is observed through a middleware scoped to it); probes use every method incl. OPTIONS, methods without routes, the target '*', and (one in four) a request whose escaped path differs from the decoded one (%2F, %20 inside a segment: routing and the Allow scan work on the escaped form). Oracle for requests no route serves: which special handler runs (OPTIONS with auto replies: options handler iff some method serves the target, else no-route; otherwise no-method iff another method serves it and the option is on; otherwise no-route), the Allow header compared as a set with exactly the methods whose reference match serves host+path directly or by ignoring a trailing slash (+OPTIONS as stated; for '*' every method that has routes), and the context seen by the handler (no route, empty pattern, no parameters, the handler's scope). Where a per-method routing answer falls in a listed C08 known finding, the composition rules are checked against fox's own per-method answer and the finding is counted. One round in two a twin router with fox's built-in handlers (WithNoMethod/WithAutoOptions, no custom handlers) is built from the same set: it must answer 404/405/200 with the same Allow header. Non-trivial: at least 2 probes were answered by a special handler with a non-empty Allow header; distinct = hash of (options, final set, probes).",
 		Run:  runC11, Quick: 64000, Thorough: 6400000,
 		Real: commonReal, Stub: commonStub,
 		Tolerances: []string{"leading_slash_capture as in C01", "with auto-OPTIONS enabled a 405 reply lists OPTIONS as well (an OPTIONS request for that target would be answered)"},
@@ -39,6 +39,31 @@ func runC11(src sim.Source, o Opts) *Result {
 		if rr.skip {
 			res.inc("runs_stopped_setup_write_disagrees_with_map_model")
 			break
+		}
+		// a twin router with the same options and routes but fox's built-in special handlers (WithNoMethod /
+		// WithAutoOptions without custom handlers): it must give the same status class and the same Allow header
+		rr.twin = nil
+		if src.Intn("builtintwin", 2) == 1 {
+			tcfg := rr.cfg
+			tcfg.BuiltinHandlers = true
+			if tw, err := world.Build(tcfg); err == nil {
+				okAll := true
+				for _, r := range rr.set.Routes() {
+					ts := 3
+					if r.IgnoreTS {
+						ts = 1
+					} else if r.RedirectTS {
+						ts = 2
+					}
+					if _, err := tw.R.Handle(r.Method, r.Pattern, world.Handler(r.Tag), world.FoxOpts(r.Tag, world.RouteOpt{TS: ts})...); err != nil {
+						okAll = false
+						break
+					}
+				}
+				if okAll {
+					rr.twin = tw
+				}
+			}
 		}
 		nprobes := 3 + src.Intn("nprobes", 8)
 		for i := 0; i < nprobes && !res.failed(); i++ {
@@ -247,6 +272,15 @@ func (rr *routingRun) checkUnserved(p world.Probe, rawPath, where string) {
 	}
 	if len(sv.Allow) > 0 {
 		res.inc("answers_with_allow_header")
+	}
+	if rr.twin != nil {
+		tobs := rr.twin.Serve(p, rawPath, "", nil)
+		wantStatus := map[model.Kind]int{model.KNoRoute: 404, model.KNoMethod: 405, model.KOptions: 200}[sv.Kind]
+		res.inc("answers_compared_with_builtin_handlers")
+		if tobs.Panic != nil || tobs.Status != wantStatus || strings.Join(tobs.Allow, ",") != strings.Join(obs.Allow, ",") {
+			res.fail("C11/builtin-handlers", "%s; the same router with fox's built-in handlers answers status %d Allow %v (panic %v), expected status %d and the same Allow header", describe(), tobs.Status, tobs.Allow, tobs.Panic, wantStatus)
+			return
+		}
 	}
 	wantScope := map[model.Kind]fox.HandlerScope{model.KNoRoute: fox.NoRouteHandler, model.KNoMethod: fox.NoMethodHandler, model.KOptions: fox.OptionsHandler}[sv.Kind]
 	if obs.Hit.HasRoute || obs.Hit.Pattern != "" || len(obs.Hit.Params) > 0 || obs.Hit.Scope != wantScope {
